@@ -431,7 +431,7 @@ func (w *World) checkCommit(ci *fakepg.CommitInfo) {
 		// references), so nobody counts as idle until it has looked again
 		for _, o := range w.pairs {
 			if o.src == ps.src {
-				o.quietRun = 0
+				o.sinceChange = 0
 			}
 		}
 	}
@@ -743,6 +743,7 @@ func (w *World) recordOutcome(ps *pairState, err error) {
 	}
 	if name == "nothing-new" || name == "done" {
 		ps.quietRun++
+		ps.sinceChange++
 	} else {
 		ps.quietRun = 0
 	}
@@ -782,8 +783,16 @@ func (w *World) quiescent() bool {
 	if !w.healed {
 		return false
 	}
+	need := len(w.plan.Decls) + 2
 	for _, ps := range w.pairs {
 		if !w.pairQuiet(ps) {
+			return false
+		}
+		// the run is only over when every pair has looked again (often enough
+		// to get past a cached head) since the last change of any position of
+		// its source: an integration that waits for others has new work then
+		waiting := ps.curNum < 0 && ps.ref.Start > 0 && int64(ps.ref.Start)-1 > int64(ps.src.node.HeadNum())
+		if !ps.idle && !waiting && ps.sinceChange < need {
 			return false
 		}
 	}
